@@ -20,9 +20,10 @@ import (
 // C01: interpreted programs behave like gc.  Four case families, told apart by "fam":
 //
 //	intalu    {id, op, k, k2, x, y, forms}   one integer operation, written in several source forms
-//	initorder {id, nv, nf, deps}             a package-level dependency graph
+//	initorder {id, nv, nf, deps, orders}     a package-level dependency graph, written in one or two textual orders
 //	conv      {id, op, ...}                  string <-> int / []byte / []rune conversions
-//	minigo    {id, prog}                     a program of the mini language of MiniGo.tla
+//	variadic / select / constuse             the cases of GoMisc.tla (one small program each)
+//	minigo    {id, prog, forms}              a program of the mini language of MiniGo.tla, written in one or more source forms
 //
 // The driver only writes Go source for a case (string templates), builds and runs it with the public
 // API and logs what was printed / returned.  No expected value is computed here.
@@ -346,22 +347,34 @@ func aluRun(cs []aluCase, retry bool) []any {
 // ---------------------------------------------------------------- initorder
 
 type initCase struct {
-	ID   int     `json:"id"`
-	Fam  string  `json:"fam"`
-	NV   int     `json:"nv"`
-	NF   int     `json:"nf"`
-	Deps [][]int `json:"deps"`
+	ID     int     `json:"id"`
+	Fam    string  `json:"fam"`
+	NV     int     `json:"nv"`
+	NF     int     `json:"nf"`
+	Deps   [][]int `json:"deps"`
+	Orders []int   `json:"orders"` // textual orders to write the graph in: 0 = as listed, 1 = every list reversed
 }
 
-// initSource: variable i is  var vI = t(I, <referenced variables>, <calls of referenced functions>);
+// initSource: variable i is  var vI = t(I, <referenced variables and calls of referenced functions>);
 // function j refers to variables by reading them and to functions by `_ = fJ` (never calls: recursion
-// among the functions must not run).
-func initSource(c initCase) string {
+// among the functions must not run).  The references are written in the order of deps (reversed when rev).
+func initSource(c initCase, rev bool) string {
+	depsOf := func(n int) []int {
+		d := c.Deps[n-1]
+		if !rev {
+			return d
+		}
+		r := make([]int, len(d))
+		for i, x := range d {
+			r[len(d)-1-i] = x
+		}
+		return r
+	}
 	var b strings.Builder
 	b.WriteString("package main\n\nfunc t(n int, d ...int) int {\n\tprintln(n)\n\treturn n\n}\n\n")
 	for i := 1; i <= c.NV; i++ {
 		fmt.Fprintf(&b, "var v%d = t(%d", i, i)
-		for _, d := range c.Deps[i-1] {
+		for _, d := range depsOf(i) {
 			if d <= c.NV {
 				fmt.Fprintf(&b, ", v%d", d)
 			} else {
@@ -371,40 +384,52 @@ func initSource(c initCase) string {
 		b.WriteString(")\n")
 	}
 	for j := c.NV + 1; j <= c.NV+c.NF; j++ {
-		fmt.Fprintf(&b, "\nfunc f%d() int {\n", j)
-		sum := "0"
-		for _, d := range c.Deps[j-1] {
+		fmt.Fprintf(&b, "\nfunc f%d() int {\n\ts := 0\n", j)
+		for _, d := range depsOf(j) {
 			if d <= c.NV {
-				sum += fmt.Sprintf(" + v%d", d)
+				fmt.Fprintf(&b, "\ts += v%d\n", d)
 			} else {
 				fmt.Fprintf(&b, "\t_ = f%d\n", d)
 			}
 		}
-		fmt.Fprintf(&b, "\treturn %s\n}\n", sum)
+		b.WriteString("\treturn s\n}\n")
 	}
 	b.WriteString("\nfunc main() {\n\tprintln(0)\n}\n")
 	return b.String()
 }
 
 func initRun(c initCase) []any {
-	src := initSource(c)
-	res := runProgram(src)
-	order := []int{}
-	for _, l := range res.Lines {
-		if len(l) == 1 {
-			if n, ok := l[0].(int); ok {
-				order = append(order, n)
-				continue
+	orders := c.Orders
+	if len(orders) == 0 {
+		orders = []int{0}
+	}
+	var out []any
+	for _, ord := range orders {
+		src := initSource(c, ord == 1)
+		res := runProgram(src)
+		order := []int{}
+		for _, l := range res.Lines {
+			if len(l) == 1 {
+				if n, ok := l[0].(int); ok {
+					order = append(order, n)
+					continue
+				}
 			}
+			order = append(order, -1)
 		}
-		order = append(order, -1)
+		form := "asc"
+		if ord == 1 {
+			form = "desc"
+		}
+		o := map[string]any{"id": c.ID, "fam": "initorder", "nv": c.NV, "nf": c.NF, "deps": c.Deps, "orders": orders, "form": form,
+			"outcome": res.Outcome, "order": order, "msg": res.Msg}
+		if *flagKeepSrc {
+			o["src"] = src
+			o["raw"] = rawText(res)
+		}
+		out = append(out, o)
 	}
-	o := map[string]any{"id": c.ID, "fam": "initorder", "nv": c.NV, "nf": c.NF, "deps": c.Deps, "outcome": res.Outcome, "order": order, "msg": res.Msg}
-	if *flagKeepSrc {
-		o["src"] = src
-		o["raw"] = rawText(res)
-	}
-	return []any{o}
+	return out
 }
 
 // ---------------------------------------------------------------- conv
@@ -554,8 +579,14 @@ func asStr(v any) string {
 
 var fieldName = map[int]string{1: "a", 2: "b"}
 
+// mgR renders a program of the mini language as Go source.
+type mgR struct {
+	funcs   [][]node // bodies of the top-level functions f1, f2, ...
+	literal bool     // source form "literal": references to top-level functions are written as function literals
+}
+
 // mgExpr writes an expression of the mini language as Go source.
-func mgExpr(e node) string {
+func (g *mgR) expr(e node) string {
 	switch asStr(e["e"]) {
 	case "c":
 		if n := asInt(e["n"]); n < 0 {
@@ -571,25 +602,25 @@ func mgExpr(e node) string {
 	case "v":
 		return fmt.Sprintf("v%d", asInt(e["v"]))
 	case "bin", "cmp":
-		return "(" + mgExpr(asNode(e["a"])) + " " + asStr(e["op"]) + " " + mgExpr(asNode(e["b"])) + ")"
+		return "(" + g.expr(asNode(e["a"])) + " " + asStr(e["op"]) + " " + g.expr(asNode(e["b"])) + ")"
 	case "and":
-		return "(" + mgExpr(asNode(e["a"])) + " && " + mgExpr(asNode(e["b"])) + ")"
+		return "(" + g.expr(asNode(e["a"])) + " && " + g.expr(asNode(e["b"])) + ")"
 	case "or":
-		return "(" + mgExpr(asNode(e["a"])) + " || " + mgExpr(asNode(e["b"])) + ")"
+		return "(" + g.expr(asNode(e["a"])) + " || " + g.expr(asNode(e["b"])) + ")"
 	case "not":
-		return "(!" + mgExpr(asNode(e["a"])) + ")"
+		return "(!" + g.expr(asNode(e["a"])) + ")"
 	case "idx":
-		return mgExpr(asNode(e["a"])) + "[" + mgExpr(asNode(e["i"])) + "]"
+		return g.expr(asNode(e["a"])) + "[" + g.expr(asNode(e["i"])) + "]"
 	case "mapget":
-		return mgExpr(asNode(e["a"])) + "[" + mgExpr(asNode(e["k"])) + "]"
+		return g.expr(asNode(e["a"])) + "[" + g.expr(asNode(e["k"])) + "]"
 	case "len":
-		return "len(" + mgExpr(asNode(e["a"])) + ")"
+		return "len(" + g.expr(asNode(e["a"])) + ")"
 	case "cap":
-		return "cap(" + mgExpr(asNode(e["a"])) + ")"
+		return "cap(" + g.expr(asNode(e["a"])) + ")"
 	case "slice":
-		return mgExpr(asNode(e["a"])) + "[" + mgExpr(asNode(e["lo"])) + ":" + mgExpr(asNode(e["hi"])) + "]"
+		return g.expr(asNode(e["a"])) + "[" + g.expr(asNode(e["lo"])) + ":" + g.expr(asNode(e["hi"])) + "]"
 	case "field":
-		return mgExpr(asNode(e["a"])) + "." + fieldName[asInt(e["f"])]
+		return g.expr(asNode(e["a"])) + "." + fieldName[asInt(e["f"])]
 	case "addr":
 		return fmt.Sprintf("&v%d", asInt(e["v"]))
 	case "nilptr":
@@ -611,7 +642,7 @@ func mgExpr(e node) string {
 		es := nodesOf(e["es"])
 		parts := make([]string, len(es))
 		for i, x := range es {
-			parts[i] = mgExpr(x)
+			parts[i] = g.expr(x)
 		}
 		switch {
 		case asStr(e["e"]) == "slicelit":
@@ -621,20 +652,30 @@ func mgExpr(e node) string {
 		}
 		return fmt.Sprintf("[%d]int{%s}", len(es), strings.Join(parts, ", "))
 	case "append":
-		return "append(" + mgExpr(asNode(e["a"])) + ", " + mgExpr(asNode(e["x"])) + ")"
+		return "append(" + g.expr(asNode(e["a"])) + ", " + g.expr(asNode(e["x"])) + ")"
 	case "clo":
-		return "func() int {\n" + mgBlock(nodesOf(e["body"]), "\t\t\t") + "\t\t}"
+		return "func() int {\n" + g.block(nodesOf(e["body"]), "\t\t\t") + "\t\t}"
+	case "fn": // a top-level function: by name, or (form "literal") written out as a function literal where it is used
+		i := asInt(e["i"])
+		if g.literal && i >= 1 && i <= len(g.funcs) {
+			return "func() int {\n" + g.block(g.funcs[i-1], "\t\t\t") + "\t\t}"
+		}
+		return fmt.Sprintf("f%d", i)
+	case "recover":
+		return "recover()"
+	case "isnil":
+		return "(" + g.expr(asNode(e["a"])) + " == nil)"
 	case "call":
-		return mgExpr(asNode(e["f"])) + "()"
+		return g.expr(asNode(e["f"])) + "()"
 	case "box":
-		return "any(" + mgExpr(asNode(e["a"])) + ")"
+		return "any(" + g.expr(asNode(e["a"])) + ")"
 	case "assert":
-		return mgExpr(asNode(e["a"])) + ".(" + asStr(e["ty"]) + ")"
+		return g.expr(asNode(e["a"])) + ".(" + asStr(e["ty"]) + ")"
 	}
 	return "/*?" + asStr(e["e"]) + "*/"
 }
 
-func mgSimple(s node) string {
+func (g *mgR) simple(s node) string {
 	switch asStr(s["s"]) {
 	case "set":
 		lv := asNode(s["lv"])
@@ -643,13 +684,13 @@ func mgSimple(s node) string {
 		case "v":
 			l = fmt.Sprintf("v%d", asInt(lv["v"]))
 		case "idx":
-			l = fmt.Sprintf("v%d[%s]", asInt(lv["v"]), mgExpr(asNode(lv["i"])))
+			l = fmt.Sprintf("v%d[%s]", asInt(lv["v"]), g.expr(asNode(lv["i"])))
 		case "map":
-			l = fmt.Sprintf("v%d[%s]", asInt(lv["v"]), mgExpr(asNode(lv["k"])))
+			l = fmt.Sprintf("v%d[%s]", asInt(lv["v"]), g.expr(asNode(lv["k"])))
 		case "field":
 			l = fmt.Sprintf("v%d.%s", asInt(lv["v"]), fieldName[asInt(lv["f"])])
 		}
-		return l + " = " + mgExpr(asNode(s["e"]))
+		return l + " = " + g.expr(asNode(s["e"]))
 	case "nop":
 		return ""
 	}
@@ -663,7 +704,7 @@ func lbl(s node, key string) string {
 	return ""
 }
 
-func mgBlock(b []node, ind string) string {
+func (g *mgR) block(b []node, ind string) string {
 	var o strings.Builder
 	for _, s := range b {
 		switch asStr(s["s"]) {
@@ -671,20 +712,20 @@ func mgBlock(b []node, ind string) string {
 		case "label":
 			fmt.Fprintf(&o, "%s:\n", asStr(s["name"]))
 		case "decl":
-			fmt.Fprintf(&o, "%sv%d := %s\n%s_ = v%d\n", ind, asInt(s["v"]), mgExpr(asNode(s["e"])), ind, asInt(s["v"]))
+			fmt.Fprintf(&o, "%sv%d := %s\n%s_ = v%d\n", ind, asInt(s["v"]), g.expr(asNode(s["e"])), ind, asInt(s["v"]))
 		case "set":
-			fmt.Fprintf(&o, "%s%s\n", ind, mgSimple(s))
+			fmt.Fprintf(&o, "%s%s\n", ind, g.simple(s))
 		case "print":
 			es := nodesOf(s["es"])
 			parts := make([]string, len(es))
 			for i, x := range es {
-				parts[i] = mgExpr(asNode(x["e"]))
+				parts[i] = g.expr(asNode(x["e"]))
 			}
 			fmt.Fprintf(&o, "%sprintln(%s)\n", ind, strings.Join(parts, ", "))
 		case "if":
-			fmt.Fprintf(&o, "%sif %s {\n%s%s}", ind, mgExpr(asNode(s["c"])), mgBlock(nodesOf(s["a"]), ind+"\t"), ind)
+			fmt.Fprintf(&o, "%sif %s {\n%s%s}", ind, g.expr(asNode(s["c"])), g.block(nodesOf(s["a"]), ind+"\t"), ind)
 			if eb := nodesOf(s["b"]); len(eb) > 0 {
-				fmt.Fprintf(&o, " else {\n%s%s}", mgBlock(eb, ind+"\t"), ind)
+				fmt.Fprintf(&o, " else {\n%s%s}", g.block(eb, ind+"\t"), ind)
 			}
 			o.WriteString("\n")
 		case "for":
@@ -693,9 +734,9 @@ func mgBlock(b []node, ind string) string {
 			}
 			init := ""
 			if v := asInt(s["v"]); v != 0 {
-				init = fmt.Sprintf("v%d := %s", v, mgExpr(asNode(s["init"])))
+				init = fmt.Sprintf("v%d := %s", v, g.expr(asNode(s["init"])))
 			}
-			fmt.Fprintf(&o, "%sfor %s; %s; %s {\n%s%s}\n", ind, init, mgExpr(asNode(s["cond"])), mgSimple(asNode(s["post"])), mgBlock(nodesOf(s["body"]), ind+"\t"), ind)
+			fmt.Fprintf(&o, "%sfor %s; %s; %s {\n%s%s}\n", ind, init, g.expr(asNode(s["cond"])), g.simple(asNode(s["post"])), g.block(nodesOf(s["body"]), ind+"\t"), ind)
 		case "ranges":
 			if l := asStr(s["label"]); l != "" {
 				fmt.Fprintf(&o, "%s:\n", l)
@@ -710,13 +751,13 @@ func mgBlock(b []node, ind string) string {
 				rv = fmt.Sprintf("v%d", v)
 				use += fmt.Sprintf("%s\t_ = v%d\n", ind, v)
 			}
-			head := fmt.Sprintf("for %s, %s := range %s", iv, rv, mgExpr(asNode(s["e"])))
+			head := fmt.Sprintf("for %s, %s := range %s", iv, rv, g.expr(asNode(s["e"])))
 			if iv == "_" && rv == "_" {
-				head = "for range " + mgExpr(asNode(s["e"]))
+				head = "for range " + g.expr(asNode(s["e"]))
 			}
-			fmt.Fprintf(&o, "%s%s {\n%s%s%s}\n", ind, head, use, mgBlock(nodesOf(s["body"]), ind+"\t"), ind)
+			fmt.Fprintf(&o, "%s%s {\n%s%s%s}\n", ind, head, use, g.block(nodesOf(s["body"]), ind+"\t"), ind)
 		case "switch":
-			fmt.Fprintf(&o, "%sswitch %s {\n", ind, mgExpr(asNode(s["e"])))
+			fmt.Fprintf(&o, "%sswitch %s {\n", ind, g.expr(asNode(s["e"])))
 			for _, c := range nodesOf(s["clauses"]) {
 				if d, _ := c["def"].(bool); d {
 					fmt.Fprintf(&o, "%sdefault:\n", ind)
@@ -727,7 +768,7 @@ func mgBlock(b []node, ind string) string {
 					}
 					fmt.Fprintf(&o, "%scase %s:\n", ind, strings.Join(vals, ", "))
 				}
-				o.WriteString(mgBlock(nodesOf(c["body"]), ind+"\t"))
+				o.WriteString(g.block(nodesOf(c["body"]), ind+"\t"))
 				if ft, _ := c["ft"].(bool); ft {
 					fmt.Fprintf(&o, "%s\tfallthrough\n", ind)
 				}
@@ -736,11 +777,15 @@ func mgBlock(b []node, ind string) string {
 		case "break", "continue", "goto":
 			fmt.Fprintf(&o, "%s%s%s\n", ind, asStr(s["s"]), lbl(s, "label"))
 		case "del":
-			fmt.Fprintf(&o, "%sdelete(v%d, %s)\n", ind, asInt(s["v"]), mgExpr(asNode(s["k"])))
+			fmt.Fprintf(&o, "%sdelete(v%d, %s)\n", ind, asInt(s["v"]), g.expr(asNode(s["k"])))
 		case "expr":
-			fmt.Fprintf(&o, "%s_ = %s\n", ind, mgExpr(asNode(s["e"])))
+			fmt.Fprintf(&o, "%s_ = %s\n", ind, g.expr(asNode(s["e"])))
 		case "ret":
-			fmt.Fprintf(&o, "%sreturn %s\n", ind, mgExpr(asNode(s["e"])))
+			fmt.Fprintf(&o, "%sreturn %s\n", ind, g.expr(asNode(s["e"])))
+		case "defer":
+			fmt.Fprintf(&o, "%sdefer %s()\n", ind, g.expr(asNode(s["f"])))
+		case "panic":
+			fmt.Fprintf(&o, "%spanic(%s)\n", ind, g.expr(asNode(s["e"])))
 		default:
 			fmt.Fprintf(&o, "%s/*?%s*/\n", ind, asStr(s["s"]))
 		}
@@ -752,12 +797,44 @@ type mgCase struct {
 	ID    int            `json:"id"`
 	Fam   string         `json:"fam"`
 	Shape string         `json:"shape"`
+	Forms []string       `json:"forms"` // source forms to write the program in ("named", "literal"); none: one form ""
 	Prog  map[string]any `json:"prog"`
 	Exp   map[string]any `json:"exp"`
+	Alt   map[string]any `json:"alt"` // carried through untouched, like exp
+}
+
+func mgSource(c mgCase, form string) string {
+	g := &mgR{literal: form == "literal"}
+	if fs, ok := c.Prog["funcs"].([]any); ok {
+		for _, f := range fs {
+			g.funcs = append(g.funcs, nodesOf(f))
+		}
+	}
+	var b strings.Builder
+	b.WriteString("package main\n\ntype S struct{ a, b int }\n\n")
+	if !g.literal {
+		for i, f := range g.funcs {
+			fmt.Fprintf(&b, "func f%d() int {\n%s}\n\n", i+1, g.block(f, "\t"))
+		}
+	}
+	b.WriteString("func main() {\n" + g.block(nodesOf(c.Prog["body"]), "\t") + "}\n")
+	return b.String()
 }
 
 func mgRun(c mgCase) []any {
-	src := "package main\n\ntype S struct{ a, b int }\n\nfunc main() {\n" + mgBlock(nodesOf(c.Prog["body"]), "\t") + "}\n"
+	forms := c.Forms
+	if len(forms) == 0 {
+		forms = []string{""}
+	}
+	var out []any
+	for _, form := range forms {
+		out = append(out, mgRunForm(c, form))
+	}
+	return out
+}
+
+func mgRunForm(c mgCase, form string) any {
+	src := mgSource(c, form)
 	res := runProgram(src)
 	lines := [][]any{}
 	for _, l := range res.Lines {
@@ -784,8 +861,224 @@ func mgRun(c mgCase) []any {
 		}
 		lines = append(lines, toks)
 	}
-	o := map[string]any{"id": c.ID, "fam": "minigo", "shape": c.Shape, "prog": c.Prog, "exp": c.Exp,
+	// (the program is not echoed: the check joins the observation with its case by id)
+	o := map[string]any{"id": c.ID, "fam": "minigo", "shape": c.Shape, "exp": c.Exp, "form": form,
 		"out": lines, "outcome": res.Outcome, "msg": drv.IntsS(res.Msg)}
+	if c.Forms != nil {
+		o["forms"] = c.Forms
+	}
+	if c.Alt != nil {
+		o["alt"] = c.Alt
+	}
+	if *flagKeepSrc {
+		o["src"] = src
+		o["raw"] = rawText(res)
+	}
+	return o
+}
+
+// ---------------------------------------------------------------- misc: variadic, select, constuse
+
+type miscCase struct {
+	ID  int    `json:"id"`
+	Fam string `json:"fam"`
+	// variadic
+	NFix int    `json:"nfix"`
+	Ety  string `json:"ety"`
+	Form string `json:"form"`
+	Mode string `json:"mode"`
+	NVar int    `json:"nvar"`
+	Src  int    `json:"spread"`
+	// select
+	Types []string `json:"types"`
+	Dirs  []string `json:"dirs"`
+	Ready int      `json:"ready"`
+	Def   int      `json:"def"`
+	// constuse
+	Kind string   `json:"kind"`
+	Decl int      `json:"decl"`
+	How  string   `json:"how"`
+	Uses []string `json:"uses"`
+}
+
+// the value n of element type t, as a Go expression: n itself, or the string of n bytes
+func valOf(t string, n int) string {
+	if t == "string" {
+		return `"` + strings.Repeat("x", n) + `"`
+	}
+	return fmt.Sprint(n)
+}
+
+// the expression that prints as the number behind a value of element type t
+func numOf(t string, e string) string {
+	if t == "string" {
+		return "len(" + e + ")"
+	}
+	return e
+}
+
+func variadicSource(c miscCase) string {
+	var b strings.Builder
+	b.WriteString("package main\n\n")
+	params, shows := "", ""
+	for j := 1; j <= c.NFix; j++ {
+		params += fmt.Sprintf("a%d int, ", j)
+		shows += fmt.Sprintf("\tprint(\" \", a%d)\n", j)
+	}
+	sig := "(" + params + "v ..." + c.Ety + ")"
+	body := " {\n\tprint(\"F\")\n" + shows +
+		"\tif v == nil {\n\t\tprint(\" \", 1)\n\t} else {\n\t\tprint(\" \", 0)\n\t}\n\tprint(\" \", len(v))\n" +
+		"\tfor i := 0; i < len(v); i++ {\n\t\tprint(\" \", " + numOf(c.Ety, "v[i]") + ")\n\t}\n\tprintln()\n" +
+		"\tif len(v) > 0 {\n\t\tv[0] = " + valOf(c.Ety, 77) + "\n\t}\n}"
+	if c.Form == "named" {
+		b.WriteString("func f" + sig + body + "\n\n")
+	}
+	b.WriteString("func main() {\n")
+	if c.Form != "named" {
+		b.WriteString("\tf := func" + sig + strings.ReplaceAll(body, "\n", "\n\t") + "\n")
+	}
+	args := []string{}
+	for j := 1; j <= c.NFix; j++ {
+		args = append(args, fmt.Sprint(100+j))
+	}
+	if c.Mode == "args" {
+		for j := 1; j <= c.NVar; j++ {
+			args = append(args, valOf(c.Ety, 10+j))
+		}
+		b.WriteString("\tf(" + strings.Join(args, ", ") + ")\n")
+	} else {
+		switch c.Src {
+		case 0:
+			b.WriteString("\ts := []" + c.Ety + "(nil)\n")
+		case 1:
+			b.WriteString("\ts := []" + c.Ety + "{}\n")
+		default:
+			b.WriteString("\ts := []" + c.Ety + "{" + valOf(c.Ety, 21) + ", " + valOf(c.Ety, 22) + "}\n")
+		}
+		args = append(args, "s...")
+		b.WriteString("\tf(" + strings.Join(args, ", ") + ")\n")
+		if c.Src == 2 {
+			b.WriteString("\tprintln(\"S\", " + numOf(c.Ety, "s[0]") + ")\n")
+		}
+	}
+	b.WriteString("}\n")
+	return b.String()
+}
+
+func selectSource(c miscCase) string {
+	var b strings.Builder
+	b.WriteString("package main\n\nfunc main() {\n")
+	n := len(c.Dirs)
+	for i := 1; i <= n; i++ {
+		fmt.Fprintf(&b, "\tc%d := make(chan %s, 1)\n", i, c.Types[i-1])
+	}
+	for i := 1; i <= n; i++ {
+		// a send case can proceed iff its channel is empty, a receive case iff it holds a value
+		if (c.Dirs[i-1] == "send") != (i == c.Ready) {
+			fmt.Fprintf(&b, "\tc%d <- %s\n", i, valOf(c.Types[i-1], 50+i))
+		}
+	}
+	b.WriteString("\tchosen, got := -5, -1\n\tselect {\n")
+	for i := 1; i <= n; i++ {
+		if c.Dirs[i-1] == "send" {
+			fmt.Fprintf(&b, "\tcase c%d <- %s:\n\t\tchosen = %d\n", i, valOf(c.Types[i-1], 10+i), i)
+		} else {
+			fmt.Fprintf(&b, "\tcase v := <-c%d:\n\t\tchosen = %d\n\t\tgot = %s\n", i, i, numOf(c.Types[i-1], "v"))
+		}
+	}
+	if c.Def == 1 {
+		b.WriteString("\tdefault:\n\t\tchosen = 0\n")
+	}
+	b.WriteString("\t}\n\tprint(\"R\", \" \", chosen, \" \", got)\n")
+	for i := 1; i <= n; i++ {
+		fmt.Fprintf(&b, "\tprint(\" \", len(c%d))\n\tif len(c%d) > 0 {\n\t\tw := <-c%d\n\t\tprint(\" \", %s)\n\t} else {\n\t\tprint(\" \", -1)\n\t}\n", i, i, i, numOf(c.Types[i-1], "w"))
+	}
+	b.WriteString("\tprintln()\n}\n")
+	return b.String()
+}
+
+func constuseSource(c miscCase) string {
+	var b strings.Builder
+	b.WriteString("package main\n\ntype B bool\ntype I int\n\n")
+	k := "true"
+	if c.Kind == "int" {
+		k = "1"
+	}
+	if c.Decl == 1 {
+		b.WriteString("const k = " + k + "\n\n")
+		k = "k"
+	}
+	b.WriteString("func ty(x interface{}) string {\n\tswitch x.(type) {\n")
+	for _, t := range []string{"bool", "B", "int", "I", "int8", "float64"} {
+		fmt.Fprintf(&b, "\tcase %s:\n\t\treturn \"%s\"\n", t, t)
+	}
+	b.WriteString("\t}\n\treturn \"?\"\n}\n\nfunc main() {\n")
+	for j, u := range c.Uses {
+		t := u
+		if u == "any" {
+			t = "interface{}"
+		}
+		if c.How == "var" {
+			fmt.Fprintf(&b, "\tvar x%d %s = %s\n", j+1, t, k)
+		} else {
+			fmt.Fprintf(&b, "\tx%d := %s(%s)\n", j+1, t, k)
+		}
+	}
+	for j := range c.Uses {
+		fmt.Fprintf(&b, "\tt%d := ty(x%d)\n", j+1, j+1)
+	}
+	b.WriteString("\tprint(\"T\")\n")
+	for j := range c.Uses {
+		fmt.Fprintf(&b, "\tprint(\" \", t%d)\n", j+1)
+	}
+	b.WriteString("\tprintln()\n}\n")
+	return b.String()
+}
+
+// miscRun runs the program of a case and logs the tokens of its lines (without the leading tag) as "out":
+// integers for variadic and select (booleans and other values never occur), type names for constuse.
+func miscRun(raw []byte) []any {
+	var c miscCase
+	o := map[string]any{}
+	if err := json.Unmarshal(raw, &c); err != nil {
+		return []any{map[string]any{"id": 0, "fam": "misc", "outcome": "badcase", "out": []any{}, "msg": err.Error()}}
+	}
+	_ = json.Unmarshal(raw, &o) // echo every field of the case
+	var src string
+	switch c.Fam {
+	case "variadic":
+		src = variadicSource(c)
+	case "select":
+		src = selectSource(c)
+	default:
+		src = constuseSource(c)
+	}
+	res := runProgram(src)
+	out := []any{}
+	for _, l := range res.Lines {
+		if len(l) == 0 {
+			continue
+		}
+		for _, v := range l[1:] {
+			switch x := v.(type) {
+			case int:
+				out = append(out, x)
+			case string:
+				if c.Fam == "constuse" {
+					out = append(out, x)
+				} else {
+					out = append(out, -999)
+				}
+			default:
+				if c.Fam == "constuse" {
+					out = append(out, fmt.Sprintf("%T", v))
+				} else {
+					out = append(out, -998)
+				}
+			}
+		}
+	}
+	o["outcome"], o["out"], o["msg"] = res.Outcome, out, res.Msg
 	if *flagKeepSrc {
 		o["src"] = src
 		o["raw"] = rawText(res)
@@ -832,6 +1125,8 @@ func main() {
 					return err
 				}
 				jobs = append(jobs, func() []any { return mgRun(c) })
+			case "variadic", "select", "constuse":
+				jobs = append(jobs, func() []any { return miscRun(raw) })
 			case "initorder":
 				var c initCase
 				if err := json.Unmarshal(raw, &c); err != nil {
